@@ -223,3 +223,18 @@ def blank_run_docs():
             out.append('{' + run + '{a}' + run + '}' + run)
             out.append('\\begin{a}' + run + '\\end{a}')
     return out
+
+
+def escape_docs():
+    """`\\` + one character of every category (escaped symbol, command name, math switch, line break ...) followed by
+    what would be an argument run if the pair were a command: blanks and groups."""
+    chars = ['\\', '{', '}', '$', '&', '\n', '\r', '#', '^', '_', ' ', '\t', '~', '%', ',', ';', '!', "'", '"', '.', '=',
+             '-', '/', '@', '|', '1', 'é', '*', '(', ')', '[', ']', 'a', 'Z', '\x00', '\x7f', '\x0c', ' ']
+    tails = ['', ' {n}or', '{n}', '\n[b] c', ' [b]', ' x', '\n\n{a}', '{a}{b}', '%c\n{a}', ' \\x{a}']
+    out = []
+    for c in chars:
+        for t in tails:
+            out.append('se\\' + c + t)
+            out.append('$x\\' + c + t + '$')
+            out.append('\\begin{a}\\' + c + t + '\\end{a}')
+    return out
